@@ -77,13 +77,19 @@ class ImmutableKnotVector(tuple):
         return instance
 
     def __add__(self, nodes: Tuple[float]) -> ImmutableKnotVector:
-        return self.__class__(sorted(list(self) + list(nodes)))
+        result = self.__class__(sorted(list(self) + list(nodes)))
+        if result.limits != self.limits:
+            raise ValueError("Cannot insert nodes outside the interval")
+        return result
 
     def __sub__(self, nodes: Tuple[float]) -> ImmutableKnotVector:
         lista = list(self)
         for node in nodes:
             lista.remove(node)
-        return self.__class__(lista)
+        result = self.__class__(lista)
+        if result.limits != self.limits:
+            raise ValueError("Cannot remove the end knots")
+        return result
 
     def __or__(self, other: ImmutableKnotVector) -> ImmutableKnotVector:
         other = ImmutableKnotVector(other)
